@@ -1,7 +1,7 @@
 (* C05 - lemmas about coq/BasisInvModel.v: the factorisation B' = D_r B D_bind of the scaled basis matrix, the
    transfer of exact solves / products through the scaling glue (column representation), soundness of the checkers,
    and the transposed product in row representation. *)
-From Coq Require Import QArith Qabs Qpower List ZArith Bool Arith Lia Lqa Setoid Morphisms.
+From Coq Require Import QArith Qabs Qpower List ZArith Bool Arith Lia Lqa Setoid Morphisms FinFun.
 From SV Require Import Vec BasisInvModel.
 Import ListNotations.
 Local Open Scope Q_scope.
@@ -667,6 +667,392 @@ Proof.
 Qed.
 
 (* ------------------------------------------------------------------------------------------------ *)
+(* row representation: the complement identity behind getBasisInverseRowReal                         *)
+(* ------------------------------------------------------------------------------------------------ *)
+
+(* the row basis names each row / column at most once, and only existing ones *)
+Definition ids_ok (p : lpmat) (ids : list bid) : Prop :=
+  NoDup ids /\
+  forall id, In id ids -> match id with BRow i => (i < lm_rows p)%nat | BCol j => (j < lm_ncols p)%nat end.
+
+(* contributions of the row vectors / of the unit vector of column j to  (M y)_j *)
+Fixpoint rowsum (ids : list bid) (y col : vec) : Q :=
+  match ids with
+  | [] => 0
+  | BRow i :: rest => vnth y 0 * vnth col i + rowsum rest (tl y) col
+  | BCol _ :: rest => rowsum rest (tl y) col
+  end.
+Fixpoint colsum (ids : list bid) (y : vec) (j : nat) : Q :=
+  match ids with
+  | [] => 0
+  | BCol j' :: rest => (if Nat.eqb j' j then vnth y 0 else 0) + colsum rest (tl y) j
+  | BRow _ :: rest => colsum rest (tl y) j
+  end.
+
+Lemma rowsum_nil ids col : rowsum ids [] col == 0.
+Proof. induction ids as [|[i|j] ids IH]; simpl; try reflexivity; rewrite IH; ring. Qed.
+
+Lemma colsum_nil ids j : colsum ids [] j == 0.
+Proof.
+  induction ids as [|[i|j'] ids IH]; simpl; try reflexivity; try exact IH.
+  rewrite IH. destruct (Nat.eqb j' j); ring.
+Qed.
+
+Lemma vnth_lp_row p i j : vnth (lp_row p i) j == vnth (nth j (lm_cols p) []) i.
+Proof.
+  unfold lp_row. generalize (lm_cols p) as cols. intros cols. revert j.
+  induction cols as [|col cols IH]; intros j; simpl.
+  - destruct j; rewrite ?vnth_nil; reflexivity.
+  - destruct j; simpl; [reflexivity | apply IH].
+Qed.
+
+Lemma vnth_rb_matrix p ids y j :
+  (j < lm_ncols p)%nat ->
+  vnth (mulv (rb_matrix p ids) y) j == rowsum ids y (nth j (lm_cols p) []) + colsum ids y j.
+Proof.
+  intros Hj. unfold mulv, rb_matrix. revert y. induction ids as [|id ids IH]; intros y.
+  - simpl. ring.
+  - destruct y as [|yi y].
+    + cbn [map tmat_vec]. rewrite vnth_nil.
+      destruct id as [i|j']; cbn [rowsum colsum tl]; rewrite ?rowsum_nil, ?colsum_nil, ?vnth_nil.
+      * ring.
+      * destruct (Nat.eqb j' j); ring.
+    + cbn [map tmat_vec]. rewrite vnth_vadd, vnth_vscale, IH.
+      destruct id as [i|j']; cbn [rb_vec rowsum colsum tl vnth].
+      * rewrite vnth_lp_row. ring.
+      * destruct (Nat.eqb j' j) eqn:E.
+        -- apply Nat.eqb_eq in E. subst j'. rewrite vnth_unit_same by exact Hj. ring.
+        -- apply Nat.eqb_neq in E. rewrite vnth_unit_other by (intro; apply E; auto). ring.
+Qed.
+
+Lemma colsum_not_basic ids y j : is_col_basic ids j = false -> colsum ids y j == 0.
+Proof.
+  revert y. induction ids as [|[i|j'] ids IH]; intros y H; simpl in *.
+  - reflexivity.
+  - apply IH. exact H.
+  - apply orb_false_iff in H as [H1 H2]. rewrite H1, IH by exact H2. ring.
+Qed.
+
+Lemma is_row_basic_In ids i : is_row_basic ids i = true <-> In (BRow i) ids.
+Proof.
+  induction ids as [|[i'|j] ids IH]; simpl.
+  - split; [discriminate | tauto].
+  - rewrite orb_true_iff, IH, Nat.eqb_eq. split.
+    + intros [H|H]; [left; congruence | right; exact H].
+    + intros [H|H]; [left; congruence | right; exact H].
+  - rewrite IH. split; [auto | intros [H|H]; [discriminate | exact H]].
+Qed.
+
+(* vset *)
+Lemma vset_length i a v : length (vset i a v) = length v.
+Proof. revert i. induction v as [|b v IH]; intros [|i]; simpl; auto. Qed.
+
+Lemma vnth_vset_other i a v k : k <> i -> vnth (vset i a v) k = vnth v k.
+Proof.
+  revert i k. induction v as [|b v IH]; intros i k H.
+  - destruct i; reflexivity.
+  - destruct i as [|i]; destruct k as [|k]; simpl; try reflexivity; try lia. apply IH. lia.
+Qed.
+
+Lemma vnth_vset_same i a v : (i < length v)%nat -> vnth (vset i a v) i = a.
+Proof.
+  revert i. induction v as [|b v IH]; intros i H; simpl in *; [lia|].
+  destruct i; simpl; [reflexivity | apply IH; lia].
+Qed.
+
+Lemma dot_vset i a acc col :
+  (i < length acc)%nat -> dot (vset i a acc) col == dot acc col + (a - vnth acc i) * vnth col i.
+Proof.
+  revert i col. induction acc as [|b acc IH]; intros i col H; simpl in *; [lia|].
+  destruct i as [|i]; destruct col as [|c col]; simpl; try ring.
+  rewrite IH by lia. ring.
+Qed.
+
+(* the scatter loop, plain branch *)
+Lemma scatter_not_basic r ids y acc i :
+  is_row_basic ids i = false -> vnth (scatter_rows false r ids y acc) i == vnth acc i.
+Proof.
+  revert y acc. induction ids as [|[i'|j] ids IH]; intros y acc H; simpl in *.
+  - reflexivity.
+  - apply orb_false_iff in H as [H1 H2]. rewrite IH by exact H2.
+    apply Nat.eqb_neq in H1. rewrite vnth_vset_other by (intro; apply H1; auto). reflexivity.
+  - apply IH. exact H.
+Qed.
+
+Lemma scatter_length sc r ids y acc : length (scatter_rows sc r ids y acc) = length acc.
+Proof.
+  revert y acc. induction ids as [|[i|j] ids IH]; intros y acc; simpl; auto.
+  rewrite IH. apply vset_length.
+Qed.
+
+Lemma scatter_dot r ids y acc col :
+  NoDup ids ->
+  (forall i, In (BRow i) ids -> (i < length acc)%nat /\ vnth acc i == 0) ->
+  dot (scatter_rows false r ids y acc) col == dot acc col + rowsum ids y col.
+Proof.
+  revert y acc. induction ids as [|[i|j] ids IH]; intros y acc ND H; simpl.
+  - ring.
+  - inversion ND as [|x l Hnin ND']; subst.
+    destruct (H i (or_introl eq_refl)) as [Hi Hz].
+    rewrite IH.
+    + rewrite dot_vset by exact Hi. rewrite Hz. ring.
+    + exact ND'.
+    + intros i' Hi'. rewrite vset_length.
+      destruct (H i' (or_intror Hi')) as [A Bz]. split; [exact A|].
+      rewrite vnth_vset_other; [exact Bz|]. intro E. subst i'. apply Hnin. exact Hi'.
+  - inversion ND as [|x l Hnin ND']; subst. apply IH; [exact ND'|].
+    intros i Hi. apply H. right. exact Hi.
+Qed.
+
+(* getBasisInd in row representation, with the membership information *)
+Lemma bind_rowrep_spec m n ids b :
+  In b (bind_rowrep m n ids) ->
+  ((b < 0)%Z /\ (Z.to_nat (-1 - b) < m)%nat /\ is_row_basic ids (Z.to_nat (-1 - b)) = false) \/
+  ((0 <= b)%Z /\ (Z.to_nat b < n)%nat /\ is_col_basic ids (Z.to_nat b) = false).
+Proof.
+  unfold bind_rowrep. intros H. apply in_app_or in H as [H|H]; apply in_map_iff in H as (t & <- & Ht);
+    apply filter_In in Ht as [Ht Hf]; apply in_seq in Ht; apply negb_true_iff in Hf.
+  - left. replace (-1 - (-1 - Z.of_nat t))%Z with (Z.of_nat t) by lia. rewrite Nat2Z.id. repeat split; [lia | lia | exact Hf].
+  - right. rewrite Nat2Z.id. repeat split; [lia | lia | exact Hf].
+Qed.
+
+Lemma NoDup_app_disjoint (A : Type) (l1 l2 : list A) :
+  NoDup l1 -> NoDup l2 -> (forall x, In x l1 -> ~ In x l2) -> NoDup (l1 ++ l2).
+Proof.
+  induction l1 as [|a l1 IH]; intros N1 N2 D; simpl; [exact N2|].
+  inversion N1 as [|x l Hn N1']; subst. constructor.
+  - intro H. apply in_app_or in H as [H|H]; [exact (Hn H) | exact (D a (or_introl eq_refl) H)].
+  - apply IH; [exact N1' | exact N2 | intros x Hx; apply D; right; exact Hx].
+Qed.
+
+Lemma bind_rowrep_NoDup m n ids : NoDup (bind_rowrep m n ids).
+Proof.
+  unfold bind_rowrep. apply NoDup_app_disjoint.
+  - apply Injective_map_NoDup; [intros x y E; lia | apply NoDup_filter, seq_NoDup].
+  - apply Injective_map_NoDup; [intros x y E; lia | apply NoDup_filter, seq_NoDup].
+  - intros x H1 H2. apply in_map_iff in H1 as (t1 & <- & _). apply in_map_iff in H2 as (t2 & E & _). lia.
+Qed.
+
+Lemma vnth_unit_eq m k i : (k < m)%nat -> vnth (unit_vec m k) i == (if Nat.eqb i k then 1 else 0).
+Proof.
+  intros Hk. destruct (Nat.eqb i k) eqn:E.
+  - apply Nat.eqb_eq in E. subst. apply vnth_unit_same. exact Hk.
+  - apply Nat.eqb_neq in E. apply vnth_unit_other. exact E.
+Qed.
+
+(* the result vector of the ROW-representation branch of getBasisInverseRowReal as a function of the solve result y,
+   with the unit entry generalised to lam (lam = 1 in the plain branch, 2^-r_i0 before the final row scaling in the
+   scaled branch) *)
+Definition rowrep_row_coef (r : list Z) (ps : lpmat) (ids : list bid) (bk : Z) (lam : Q) (y : vec) : vec :=
+  let z := scatter_rows false r ids y (vzero (lm_rows ps)) in
+  if (bk <? 0)%Z then vset (Z.to_nat (-1 - bk)) lam z else z.
+
+Definition rowrep_row_rhs_ok (ps : lpmat) (bk : Z) (lam : Q) (rhs : vec) : Prop :=
+  forall j, (j < lm_ncols ps)%nat ->
+    vnth rhs j == (if (bk <? 0)%Z then - lam * vnth (nth j (lm_cols ps) []) (Z.to_nat (-1 - bk))
+                   else lam * (if Nat.eqb j (Z.to_nat bk) then 1 else 0)).
+
+Section RowRepInverseRowCore.
+  Variables (ps : lpmat) (ids : list bid) (r : list Z).
+  Let m := lm_rows ps.
+  Let n := lm_ncols ps.
+  Let bind := bind_rowrep m n ids.
+  Let B := basis_matrix ps bind.
+  Hypothesis Hids : ids_ok ps ids.
+
+  Lemma zero_acc_ok : forall i, In (BRow i) ids -> (i < length (vzero m))%nat /\ vnth (vzero m) i == 0.
+  Proof.
+    intros i Hi. rewrite vzero_length. split; [exact (proj2 Hids _ Hi) | apply vnth_vzero].
+  Qed.
+
+  (* for every column j that is not in the row basis: <scatter(y), column j> = (M y)_j *)
+  Lemma scatter_col y j :
+    (j < n)%nat -> is_col_basic ids j = false ->
+    dot (scatter_rows false r ids y (vzero m)) (nth j (lm_cols ps) []) == vnth (mulv (rb_matrix ps ids) y) j.
+  Proof.
+    intros Hj Hc. rewrite scatter_dot; [| exact (proj1 Hids) | exact zero_acc_ok].
+    rewrite vnth_rb_matrix by exact Hj. rewrite colsum_not_basic by exact Hc.
+    rewrite dot_comm, dot_vzero. ring.
+  Qed.
+
+  Lemma rowrep_row_core k lam y rhs :
+    (k < length bind)%nat ->
+    (forall j, (j < n)%nat -> vnth (mulv (rb_matrix ps ids) y) j == vnth rhs j) ->
+    rowrep_row_rhs_ok ps (nth k bind 0%Z) lam rhs ->
+    forall t, vnth (vmul (rowrep_row_coef r ps ids (nth k bind 0%Z) lam y) B) t == lam * vnth (unit_vec (length bind) k) t.
+  Proof.
+    intros Hk Hy Hrhs t. rewrite vnth_vmul.
+    destruct (Nat.lt_ge_cases t (length bind)) as [Ht|Ht].
+    2:{ unfold B, basis_matrix. rewrite (nth_overflow (map (basis_col ps) bind) []) by (rewrite map_length; exact Ht).
+        rewrite dot_nil_r. rewrite vnth_unit_other by lia. ring. }
+    rewrite (vnth_unit_eq _ _ t Hk).
+    unfold B, basis_matrix. rewrite (nth_indep (map (basis_col ps) bind) [] (basis_col ps 0%Z)) by (rewrite map_length; exact Ht).
+    rewrite map_nth.
+    set (bt := nth t bind 0%Z). set (bk := nth k bind 0%Z). fold bk in Hrhs.
+    assert (Hbt : In bt bind) by (apply nth_In; exact Ht).
+    assert (Hbk : In bk bind) by (apply nth_In; exact Hk).
+    assert (Heq : bt = bk <-> t = k).
+    { split; [|intros ->; reflexivity]. intros E. apply (proj1 (NoDup_nth bind 0%Z) (bind_rowrep_NoDup m n ids)); assumption. }
+    unfold rowrep_row_coef. fold m.
+    unfold rowrep_row_rhs_ok in Hrhs. fold n in Hrhs.
+    apply bind_rowrep_spec in Hbk as [(K1 & K2 & K3)|(K1 & K2 & K3)];
+      apply bind_rowrep_spec in Hbt as [(T1 & T2 & T3)|(T1 & T2 & T3)].
+    - (* row k is a slack i0, column t is a slack *)
+      assert (E1 : (bk <? 0)%Z = true) by (apply Z.ltb_lt; exact K1). rewrite E1.
+      unfold basis_col. assert (E2 : (0 <=? bt)%Z = false) by (apply Z.leb_gt; exact T1). rewrite E2. fold m.
+      rewrite dot_unit by exact T2.
+      destruct (Nat.eqb t k) eqn:Etk.
+      + apply Nat.eqb_eq in Etk. apply Heq in Etk. rewrite Etk.
+        rewrite vnth_vset_same by (rewrite scatter_length, vzero_length; exact K2). ring.
+      + apply Nat.eqb_neq in Etk.
+        rewrite vnth_vset_other by (intro E; apply Etk, Heq; lia).
+        rewrite scatter_not_basic by exact T3. rewrite vnth_vzero. ring.
+    - (* row k is a slack i0, column t is an LP column j *)
+      assert (E1 : (bk <? 0)%Z = true) by (apply Z.ltb_lt; exact K1). rewrite E1 in *.
+      unfold basis_col. assert (E2 : (0 <=? bt)%Z = true) by (apply Z.leb_le; exact T1). rewrite E2.
+      assert (Etk : Nat.eqb t k = false) by (apply Nat.eqb_neq; intro E; apply Heq in E; lia). rewrite Etk.
+      rewrite dot_vset by (rewrite scatter_length, vzero_length; exact K2).
+      rewrite scatter_not_basic by exact K3. rewrite vnth_vzero.
+      rewrite scatter_col by assumption.
+      rewrite (Hy _ T2), (Hrhs _ T2). ring.
+    - (* row k is an LP column j0, column t is a slack *)
+      assert (E1 : (bk <? 0)%Z = false) by (apply Z.ltb_ge; exact K1). rewrite E1.
+      unfold basis_col. assert (E2 : (0 <=? bt)%Z = false) by (apply Z.leb_gt; exact T1). rewrite E2. fold m.
+      assert (Etk : Nat.eqb t k = false) by (apply Nat.eqb_neq; intro E; apply Heq in E; lia). rewrite Etk.
+      rewrite dot_unit by exact T2. rewrite scatter_not_basic by exact T3. rewrite vnth_vzero. ring.
+    - (* both LP columns *)
+      assert (E1 : (bk <? 0)%Z = false) by (apply Z.ltb_ge; exact K1). rewrite E1 in *.
+      unfold basis_col. assert (E2 : (0 <=? bt)%Z = true) by (apply Z.leb_le; exact T1). rewrite E2.
+      rewrite scatter_col by assumption.
+      rewrite (Hy _ T2), (Hrhs _ T2).
+      destruct (Nat.eqb t k) eqn:Etk.
+      + apply Nat.eqb_eq in Etk. apply Heq in Etk. rewrite Etk, Nat.eqb_refl. reflexivity.
+      + apply Nat.eqb_neq in Etk.
+        assert (E3 : Nat.eqb (Z.to_nat bt) (Z.to_nat bk) = false).
+        { apply Nat.eqb_neq. intro E. apply Etk, Heq. lia. }
+        rewrite E3. reflexivity.
+  Qed.
+End RowRepInverseRowCore.
+
+(* plain branch *)
+Lemma binv_row_rowrep_plain ps ids r c solve k :
+  ids_ok ps ids ->
+  (forall b, length b = lm_ncols ps -> veq (mulv (rb_matrix ps ids) (solve b)) b) ->
+  let bind := bind_rowrep (lm_rows ps) (lm_ncols ps) ids in
+  (k < length bind)%nat ->
+  veq (vmul (binv_row_rowrep solve false r c ps ids k) (basis_matrix ps bind)) (unit_vec (length bind) k).
+Proof.
+  intros Hids Hs bind Hk t.
+  assert (G : forall y rhs,
+             (forall j, (j < lm_ncols ps)%nat -> vnth (mulv (rb_matrix ps ids) y) j == vnth rhs j) ->
+             rowrep_row_rhs_ok ps (nth k bind 0%Z) 1 rhs ->
+             vnth (vmul (rowrep_row_coef r ps ids (nth k bind 0%Z) 1 y) (basis_matrix ps bind)) t
+             == vnth (unit_vec (length bind) k) t).
+  { intros y rhs Hy Hr. pose proof (rowrep_row_core ps ids r Hids k 1 y rhs Hk Hy Hr t) as H.
+    unfold bind. rewrite H. ring. }
+  unfold binv_row_rowrep. fold bind. unfold rowrep_row_coef in G.
+  destruct (nth k bind 0%Z <? 0)%Z eqn:E.
+  - eapply G.
+    + intros j Hj. apply Hs. unfold vscale, lp_row. rewrite !map_length. reflexivity.
+    + intros j Hj. rewrite E. rewrite vnth_vscale, vnth_lp_row. ring.
+  - eapply G.
+    + intros j Hj. apply Hs. apply unit_vec_length.
+    + intros j Hj. rewrite E.
+      assert (Hin : In (nth k bind 0%Z) bind) by (apply nth_In; exact Hk).
+      apply bind_rowrep_spec in Hin as [(K1 & _)|(K1 & K2 & _)]; [apply Z.ltb_ge in E; lia|].
+      rewrite (vnth_unit_eq _ _ j K2). ring.
+Qed.
+
+(* scaled branch: the loop multiplies every scattered entry by 2^r_i *)
+Lemma vset_dscale r i a a' acc acc' :
+  a' == a * pow2 (nth i r 0%Z) -> Forall2 Qeq acc (dscale r acc') ->
+  Forall2 Qeq (vset i a' acc) (dscale r (vset i a acc')).
+Proof.
+  intros Ha. revert r i acc Ha. induction acc' as [|b acc' IH]; intros r i acc Ha H.
+  - simpl in H. inversion H; subst. destruct i; constructor.
+  - simpl in H. inversion H as [|x y l l' Hxy Hl]; subst. destruct i as [|i]; simpl.
+    + constructor; [rewrite Ha, nth_hd; reflexivity | exact Hl].
+    + constructor; [exact Hxy|]. apply IH; [rewrite nth_tl; exact Ha | exact Hl].
+Qed.
+
+Lemma scatter_true_dscale r ids y acc acc' :
+  Forall2 Qeq acc (dscale r acc') ->
+  Forall2 Qeq (scatter_rows true r ids y acc) (dscale r (scatter_rows false r ids y acc')).
+Proof.
+  revert y acc acc'. induction ids as [|[i|j] ids IH]; intros y acc acc' H; simpl.
+  - exact H.
+  - apply IH. apply vset_dscale; [reflexivity | exact H].
+  - apply IH. exact H.
+Qed.
+
+Lemma vzero_dscale r n : Forall2 Qeq (vzero n) (dscale r (vzero n)).
+Proof.
+  revert r. induction n as [|n IH]; intros r; simpl; constructor; [ring | apply IH].
+Qed.
+
+Lemma nth_dbind r c bind k : (k < length bind)%nat -> nth k (dbind r c bind) 0%Z = bind_exp r c (nth k bind 0%Z).
+Proof.
+  intros Hk. unfold dbind. rewrite (nth_indep _ 0%Z (bind_exp r c 0%Z)) by (rewrite map_length; exact Hk).
+  apply map_nth.
+Qed.
+
+Lemma lm_ncols_scale r c p : lm_ncols (scale r c p) = lm_ncols p.
+Proof. unfold lm_ncols. simpl. apply scale_cols_length. Qed.
+
+Lemma binv_row_rowrep_unscale p ids r c solve k :
+  ids_ok p ids ->
+  (forall b, length b = lm_ncols p -> veq (mulv (rb_matrix (scale r c p) ids) (solve b)) b) ->
+  let bind := bind_rowrep (lm_rows p) (lm_ncols p) ids in
+  (k < length bind)%nat ->
+  veq (vmul (binv_row_rowrep solve true r c (scale r c p) ids k) (basis_matrix p bind)) (unit_vec (length bind) k).
+Proof.
+  intros Hids Hs bind Hk t.
+  set (ps := scale r c p).
+  assert (Hids' : ids_ok ps ids).
+  { destruct Hids as [N R]. split; [exact N|]. intros id Hid. specialize (R id Hid). destruct id; [exact R|].
+    unfold ps. rewrite lm_ncols_scale. exact R. }
+  assert (En : lm_ncols ps = lm_ncols p) by apply lm_ncols_scale.
+  assert (Em : lm_rows ps = lm_rows p) by reflexivity.
+  set (bk := nth k bind 0%Z).
+  set (lam := pow2 (bind_exp r c bk)).
+  (* what the core lemma gives for the stored LP, transferred to the user's matrix *)
+  assert (G : forall y rhs,
+             (forall j, (j < lm_ncols p)%nat -> vnth (mulv (rb_matrix ps ids) y) j == vnth rhs j) ->
+             rowrep_row_rhs_ok ps bk lam rhs ->
+             vnth (vmul (dscale r (rowrep_row_coef r ps ids bk lam y)) (basis_matrix p bind)) t
+             == vnth (unit_vec (length bind) k) t).
+  { intros y rhs Hy Hr.
+    pose proof (rowrep_row_core ps ids r Hids' k lam y rhs) as H.
+    rewrite En, Em in H. fold bind in H. fold bk in H.
+    specialize (H Hk Hy Hr t). unfold ps in H. rewrite vmul_scaled_basis in H. fold ps in H.
+    unfold lam in H at 2. unfold bk in H at 2. rewrite <- (nth_dbind r c bind k Hk) in H.
+    rewrite (unit_vec_diag (fun s => pow2 (nth s (dbind r c bind) 0%Z)) (length bind) k t) in H.
+    apply (Qmult_inj_l _ _ (pow2 (nth t (dbind r c bind) 0%Z))); [apply pow2_nz | exact H]. }
+  unfold binv_row_rowrep. fold ps. rewrite En, Em. fold bind. fold bk.
+  unfold rowrep_row_coef in G. unfold lam, bind_exp in G.
+  destruct (bk <? 0)%Z eqn:E.
+  - assert (E' : (0 <=? bk)%Z = false) by (apply Z.leb_gt; apply Z.ltb_lt; exact E). rewrite E' in G.
+    set (i0 := Z.to_nat (-1 - bk)) in *.
+    set (y := solve _).
+    rewrite (vmul_x_ext (basis_matrix p bind) _ (dscale r (vset i0 (pow2 (- nth i0 r 0%Z)) (scatter_rows false r ids y (vzero (lm_rows ps)))))).
+    + eapply G.
+      * intros j Hj. unfold y. apply Hs. unfold vscale, lp_row. rewrite !map_length. apply scale_cols_length.
+      * intros j Hj. rewrite E. rewrite !vnth_vscale, vnth_lp_row. unfold i0. ring.
+    + apply vset_dscale; [symmetry; apply pow2_opp_l | apply scatter_true_dscale, vzero_dscale].
+  - assert (E' : (0 <=? bk)%Z = true) by (apply Z.leb_le; apply Z.ltb_ge; exact E). rewrite E' in G.
+    set (j0 := Z.to_nat bk) in *.
+    set (y := solve _).
+    rewrite (vmul_x_ext (basis_matrix p bind) _ (dscale r (scatter_rows false r ids y (vzero (lm_rows ps))))).
+    + eapply G.
+      * intros j Hj. unfold y. apply Hs. unfold vscale. rewrite map_length. apply unit_vec_length.
+      * intros j Hj. rewrite E. rewrite vnth_vscale.
+        assert (Hin : In bk bind) by (apply nth_In; exact Hk).
+        apply bind_rowrep_spec in Hin as [(K1 & _)|(K1 & K2 & _)]; [apply Z.ltb_ge in E; lia|].
+        fold j0 in K2. rewrite (vnth_unit_eq _ _ j K2). reflexivity.
+    + apply scatter_true_dscale, vzero_dscale.
+Qed.
+
+(* ------------------------------------------------------------------------------------------------ *)
 (* row representation: three branches whose faithful model does NOT return the answer for the user's *)
 (* matrix although the inner solve is exact (witnesses evaluated by vm_compute)                      *)
 (* ------------------------------------------------------------------------------------------------ *)
@@ -752,4 +1138,23 @@ Proof.
   intros [|b0 [|b1 [|b2 b]]] Hb; try discriminate Hb.
   set (Bs := basis_matrix _ _). vm_compute in Bs. subst Bs. unfold ex_coSolve, ex_inv, vmul.
   intros [|[|i]]; cbn [map dot vnth]; try ring; destruct i; reflexivity.
+Qed.
+
+(* row basis of ex_p = [[2,1,4],[1,3,-8]]: the bounds of columns 0 and 2 and row 1; the user's basis is (slack 0, column 1) *)
+Definition exr_ids : list bid := [BCol 0; BCol 2; BRow 1].
+Definition exr_inv : mat := [[1; 0; 0]; [-(1 # 3); 8 # 3; 1 # 3]; [0; 1; 0]].
+Definition exr_solve (b : vec) : vec := mulv exr_inv b.
+
+Lemma exr_ids_ok : ids_ok ex_p exr_ids.
+Proof.
+  split.
+  - repeat constructor; simpl; intuition discriminate.
+  - intros id [H|[H|[H|[]]]]; subst; vm_compute; repeat constructor.
+Qed.
+
+Lemma exr_solve_exact : forall b, length b = lm_ncols ex_p -> veq (mulv (rb_matrix ex_p exr_ids) (exr_solve b)) b.
+Proof.
+  intros [|b0 [|b1 [|b2 [|b3 b]]]] Hb; try discriminate Hb.
+  set (M := rb_matrix _ _). vm_compute in M. subst M. unfold exr_solve, exr_inv, mulv.
+  intros [|[|[|i]]]; cbn [tmat_vec vadd vscale map vnth]; try ring; destruct i; reflexivity.
 Qed.
